@@ -15,8 +15,12 @@ vars == <<ph, call, res>>
 Sources == << <<"p1", "p2", "p3", "p4">>,        \* pairwise distinct (NaN payloads, -0, ...)
               <<"p5", "p5", "p6", "p6">>,        \* equal lanes
               <<"p7", "p8", "p7", "p8">>,
-              <<"zero", "one", "max", "min">> >>
+              <<"zero", "one", "max", "min">>,
+              <<"zero", "p2", "zero", "p2">> >>          \* +0 and -0 (floats): lanes that compare equal to their twins below
 Repl == <<"q1", "q2", "q3">>                     \* replacement lanes, distinct from every source
+\* "~t" is the twin of token t: it compares equal to t but has other bits where the scalar type has such values (the other zero);
+\* a setter that skips lanes it believes unchanged is exposed by writing the twins of the lanes already there
+Twin(t) == "~" \o t
 
 Take(v, n) == [i \in 1..n |-> v[i]]
 
@@ -24,11 +28,13 @@ Calls ==
     UNION {
       [kind : {"get"},  n : {n}, name : GetterNames(n), src : 1..Len(Sources)]
       \cup [kind : {"with"}, n : {n}, name : SetterNames(n), src : 1..Len(Sources)]
+      \cup [kind : {"withtwin"}, n : {n}, name : SetterNames(n), src : {1, 4, 5}]
     : n \in 2..4 }
 
 Src(c) == Take(Sources[c.src], c.n)
+Rhs(c) == IF c.kind = "withtwin" THEN [i \in 1..Len(c.name) |-> Twin(SwzGet(c.name, Src(c))[i])] ELSE Take(Repl, Len(c.name))
 Eval(c) == IF c.kind = "get" THEN SwzGet(c.name, Src(c))
-           ELSE SwzWith(c.name, Src(c), Take(Repl, Len(c.name)))
+           ELSE SwzWith(c.name, Src(c), Rhs(c))
 
 Init == ph = "call" /\ call \in Calls /\ res = <<>>
 Return == ph = "call" /\ ph' = "ret" /\ res' = Eval(call) /\ UNCHANGED call
@@ -36,15 +42,15 @@ Next == Return
 Spec == Init /\ [][Next]_vars
 
 Emit == ph = "ret" =>
-    PrintT(<<"CASE", ToJson([fam |-> "swz", kind |-> call.kind, n |-> call.n,
+    PrintT(<<"CASE", ToJson([fam |-> "swz", kind |-> IF call.kind = "withtwin" THEN "with" ELSE call.kind, twin |-> call.kind = "withtwin", n |-> call.n,
                              name |-> NameStr(call.name), src |-> Src(call),
-                             rhs |-> IF call.kind = "with" THEN Take(Repl, Len(call.name)) ELSE <<>>,
+                             rhs |-> IF call.kind = "get" THEN <<>> ELSE Rhs(call),
                              exp |-> res])>>)
 
 \* ---- theorems ---------------------------------------------------------------
 \* reading back what was written returns it; writing back what was read is the identity
-ReadAfterWrite == (ph = "ret" /\ call.kind = "with") =>
-                      /\ SwzGet(call.name, res) = Take(Repl, Len(call.name))
+ReadAfterWrite == (ph = "ret" /\ call.kind \in {"with", "withtwin"}) =>
+                      /\ SwzGet(call.name, res) = Rhs(call)
                       /\ SwzWith(call.name, Src(call), SwzGet(call.name, Src(call))) = Src(call)
                       \* untouched lanes are unchanged
                       /\ \A j \in 1..call.n : PosIn(call.name, j) = 0 => res[j] = Src(call)[j]
